@@ -11,7 +11,9 @@ package forward
 import (
 	"context"
 	"fmt"
+	mrand "math/rand"
 	"net"
+	"runtime"
 	"sort"
 	"strings"
 	"sync"
@@ -249,4 +251,325 @@ func TestZZVForwardKeys(t *testing.T) {
 	}
 	zzvEmit("summary", map[string]any{"evaluations": evals, "mismatches": mism, "classes": classes, "configs": len(cfgNames),
 		"level": "handler"})
+}
+
+// ---------------------------------------------------------------------------------------------------------------
+// Part 2b of the spec: a forward open is two steps (accept on the frame loop, dial in a goroutine), requests of
+// different peers may carry the same stream id, and the handler lives on between requests.
+
+type zzvFOEndpoint struct {
+	Host string `json:"host"` // host class of the spec: h1 = 127.0.0.1, h2 = the name "localhost"
+	Port int    `json:"port"`
+}
+
+type zzvFOIn struct {
+	Endpoints map[string]zzvFOEndpoint `json:"endpoints"`
+	Seqs      [][]string               `json:"seqs"`
+}
+
+type zzvFOKey struct {
+	peer identity.AgentID
+	sid  uint64
+}
+
+type zzvFOWriter struct {
+	mu      sync.Mutex
+	replies map[zzvFOKey]zzvFKReply
+}
+
+func (w *zzvFOWriter) WriteStreamData(identity.AgentID, uint64, []byte, uint8) error { return nil }
+func (w *zzvFOWriter) WriteStreamClose(identity.AgentID, uint64) error               { return nil }
+func (w *zzvFOWriter) WriteStreamOpenAck(p identity.AgentID, sid uint64, _ uint64, _ net.IP, _ uint16, _ [crypto.KeySize]byte) error {
+	w.mu.Lock()
+	w.replies[zzvFOKey{p, sid}] = zzvFKReply{ack: true}
+	w.mu.Unlock()
+	return nil
+}
+func (w *zzvFOWriter) WriteStreamOpenErr(p identity.AgentID, sid uint64, _ uint64, code uint16, msg string) error {
+	w.mu.Lock()
+	w.replies[zzvFOKey{p, sid}] = zzvFKReply{code: code, msg: msg}
+	w.mu.Unlock()
+	return nil
+}
+func (w *zzvFOWriter) get(p identity.AgentID, sid uint64) (zzvFKReply, bool) {
+	w.mu.Lock()
+	defer w.mu.Unlock()
+	r, ok := w.replies[zzvFOKey{p, sid}]
+	return r, ok
+}
+
+// zzvFOTargets starts one listener per endpoint of the spec; endpoints of one host class share the host and differ
+// in the port only.
+func zzvFOTargets(t testing.TB, eps map[string]zzvFOEndpoint) (keys []string, sinks map[string]*zzvFKSink, cfg []Endpoint) {
+	sinks = map[string]*zzvFKSink{}
+	for k := range eps {
+		keys = append(keys, k)
+	}
+	sort.Strings(keys)
+	for _, k := range keys {
+		l, err := net.Listen("tcp", "127.0.0.1:0")
+		if err != nil {
+			t.Fatalf("forwardopen: listen: %v", err)
+		}
+		s := &zzvFKSink{key: k, l: l}
+		sinks[k] = s
+		host := "127.0.0.1"
+		if eps[k].Host != "h1" {
+			host = "localhost"
+		}
+		cfg = append(cfg, Endpoint{Key: k, Target: net.JoinHostPort(host, fmt.Sprint(l.Addr().(*net.TCPAddr).Port))})
+		go func() {
+			for {
+				c, err := l.Accept()
+				if err != nil {
+					return
+				}
+				s.n.Add(1)
+				c.Close()
+			}
+		}()
+		t.Cleanup(func() { l.Close() })
+	}
+	return
+}
+
+func zzvFONewHandler(cfg []Endpoint, self identity.AgentID) (*Handler, *zzvFOWriter) {
+	w := &zzvFOWriter{replies: map[zzvFOKey]zzvFKReply{}}
+	hc := DefaultHandlerConfig()
+	hc.Endpoints = cfg
+	hc.ConnectTimeout = 5 * time.Second
+	hc.MaxConnections = 1 << 20
+	h := NewHandler(hc, self, w)
+	h.Start()
+	return h, w
+}
+
+// TestZZVForwardSeqs: every request sequence of the spec on ONE live handler (state carried between requests).
+func TestZZVForwardSeqs(t *testing.T) {
+	var in zzvFOIn
+	zzvLoad(t, "ZZV_IN_OPEN", &in)
+	keys, sinks, cfg := zzvFOTargets(t, in.Endpoints)
+	self, _ := identity.NewAgentID()
+	peer, _ := identity.NewAgentID()
+	evals, mism := 0, 0
+	classes := map[string]int{}
+	snap := func() map[string]int64 {
+		m := map[string]int64{}
+		for _, k := range keys {
+			m[k] = sinks[k].n.Load()
+		}
+		return m
+	}
+	for qi, seq := range in.Seqs {
+		h, w := zzvFONewHandler(cfg, self)
+		for ri, rk := range seq {
+			key := rk
+			_, known := in.Endpoints[rk]
+			if !known {
+				key = keys[0][:len(keys[0])-1] // near miss of a configured key
+			}
+			_, pub, err := crypto.GenerateEphemeralKeypair()
+			if err != nil {
+				t.Fatal(err)
+			}
+			sid := uint64(2*ri + 10)
+			before := snap()
+			h.HandleStreamOpen(context.Background(), sid, sid+1, peer, key, pub)
+			if !zzvFKWait(10*time.Second, func() bool { _, ok := w.get(peer, sid); return ok }) {
+				t.Fatalf("forwardopen: no reply for key %q in sequence %v", key, seq)
+			}
+			rep, _ := w.get(peer, sid)
+			if rep.ack {
+				zzvFKWait(2*time.Second, func() bool {
+					for _, k := range keys {
+						if sinks[k].n.Load() > before[k] {
+							return true
+						}
+					}
+					return false
+				})
+				h.HandleStreamClose(peer, sid)
+			} else {
+				time.Sleep(300 * time.Microsecond)
+			}
+			var hit []string
+			after := snap()
+			for _, k := range keys {
+				if after[k] > before[k] {
+					hit = append(hit, k)
+				}
+			}
+			evals++
+			class := ""
+			switch {
+			case known && len(hit) == 0:
+				class = "known-key-not-connected"
+			case known && (len(hit) != 1 || hit[0] != rk):
+				class = "wrong-target"
+			case !known && len(hit) > 0:
+				class = "connected-for-unknown-key"
+			case !known && rep.ack:
+				class = "unknown-key-not-refused"
+			case !known && rep.code != protocol.ErrForwardNotFound:
+				class = "unknown-key-error-not-notfound"
+			}
+			if class != "" {
+				mism++
+				classes[class]++
+				if classes[class] <= 5 {
+					zzvEmit("mismatch", map[string]any{"class": class, "level": "handler-sequence", "cfg": "same-host endpoints",
+						"key": fmt.Sprintf("%q", key), "keylen": len(key), "sequence": seq, "position": ri, "seq_index": qi,
+						"connected_targets_of": fmt.Sprintf("%q", hit), "oracle": map[string]any{"found": known, "target": rk},
+						"impl": nil, "ack": rep.ack, "code": rep.code, "msg": rep.msg, "targets": cfg})
+				}
+			}
+		}
+		h.Stop()
+	}
+	zzvEmit("summary", map[string]any{"evaluations": evals, "sequences": len(in.Seqs), "mismatches": mism, "classes": classes,
+		"level": "handler-sequence"})
+}
+
+// TestZZVForwardRace: several peers open DIFFERENT keys with the SAME stream id at the same time.
+// Oracle per round: every target listener accepted exactly as many connections as requests for ITS key were
+// acknowledged (a connection made for one request at another key's target breaks the count on both sides).
+func TestZZVForwardRace(t *testing.T) {
+	var in zzvFOIn
+	zzvLoad(t, "ZZV_IN_OPEN", &in)
+	rounds := zzvEnvInt("ZZV_ROUNDS", 200)
+	keys, sinks, cfg := zzvFOTargets(t, in.Endpoints)
+	self, _ := identity.NewAgentID()
+	var peers []identity.AgentID
+	for i := 0; i < 4; i++ {
+		p, _ := identity.NewAgentID()
+		peers = append(peers, p)
+	}
+	rng := mrand.New(mrand.NewSource(zzvSeed()))
+	type mode struct {
+		procs int  // GOMAXPROCS (0 = leave)
+		par   bool // requests issued from parallel goroutines (else back to back from one goroutine)
+	}
+	modes := []mode{{1, false}, {1, true}, {2, false}, {2, true}, {0, false}, {0, true}}
+	evals, mism, roundsRun, noReply := 0, 0, 0, 0
+	classes := map[string]int{}
+	sid := uint64(1000)
+	for _, md := range modes {
+		old := 0
+		if md.procs > 0 {
+			old = runtime.GOMAXPROCS(md.procs)
+		}
+		h, w := zzvFONewHandler(cfg, self)
+		modeMism, stalls := 0, 0
+		// three offending rounds per mode are evidence enough; rounds in which a request is never answered cost
+		// seconds each and are not judged (only counted), so a few of them end the mode as well
+		for r := 0; r < rounds && modeMism < 3 && stalls < 4; r++ {
+			sid += 2
+			k := 2 + rng.Intn(3) // 2..4 concurrent requests
+			perm := rng.Perm(len(keys))
+			req := make([]string, k)
+			for i := range req {
+				req[i] = keys[perm[i%len(keys)]]
+			}
+			pubs := make([][crypto.KeySize]byte, k)
+			for i := range pubs {
+				_, pub, err := crypto.GenerateEphemeralKeypair()
+				if err != nil {
+					t.Fatal(err)
+				}
+				pubs[i] = pub
+			}
+			before := map[string]int64{}
+			for _, kk := range keys {
+				before[kk] = sinks[kk].n.Load()
+			}
+			if md.par {
+				var wg sync.WaitGroup
+				start := make(chan struct{})
+				for i := 0; i < k; i++ {
+					wg.Add(1)
+					go func(i int) {
+						defer wg.Done()
+						<-start
+						h.HandleStreamOpen(context.Background(), sid, sid+uint64(i)+1, peers[i], req[i], pubs[i])
+					}(i)
+				}
+				close(start)
+				wg.Wait()
+			} else {
+				for i := 0; i < k; i++ {
+					h.HandleStreamOpen(context.Background(), sid, sid+uint64(i)+1, peers[i], req[i], pubs[i])
+				}
+			}
+			// wait for the replies (a request whose reply never comes is counted, not judged)
+			allReplied := func() bool {
+				for i := 0; i < k; i++ {
+					if _, ok := w.get(peers[i], sid); !ok {
+						return false
+					}
+				}
+				return true
+			}
+			got := zzvFKWait(600*time.Millisecond, allReplied) || zzvFKWait(3*time.Second, allReplied)
+			acked := map[string]int64{}
+			nack := int64(0)
+			for i := 0; i < k; i++ {
+				rep, ok := w.get(peers[i], sid)
+				if !ok {
+					noReply++
+					continue
+				}
+				if rep.ack {
+					acked[req[i]]++
+					nack++
+				}
+			}
+			zzvFKWait(5*time.Second, func() bool {
+				var tot int64
+				for _, kk := range keys {
+					tot += sinks[kk].n.Load() - before[kk]
+				}
+				return tot >= nack
+			})
+			if !got {
+				stalls++
+				time.Sleep(20 * time.Millisecond)
+			}
+			// Judged only by what a late or missing reply cannot explain: an ACKNOWLEDGED request whose target saw no
+			// connection (the connection was made elsewhere), or more connections at a target than requests for its key.
+			accepted := map[string]int64{}
+			asked := map[string]int64{}
+			for i := 0; i < k; i++ {
+				asked[req[i]]++
+			}
+			bad := false
+			for _, kk := range keys {
+				accepted[kk] = sinks[kk].n.Load() - before[kk]
+				if acked[kk] > accepted[kk] || accepted[kk] > asked[kk] {
+					bad = true
+				}
+			}
+			for i := 0; i < k; i++ {
+				h.HandleStreamClose(peers[i], sid)
+			}
+			evals += k
+			roundsRun++
+			if bad {
+				mism++
+				modeMism++
+				classes["wrong-target"]++
+				if classes["wrong-target"] <= 5 {
+					zzvEmit("mismatch", map[string]any{"class": "wrong-target", "level": "handler-concurrent", "cfg": "same stream id, different peers",
+						"key": fmt.Sprintf("%q", req), "keylen": 0, "requests": req, "acknowledged_per_key": acked, "accepted_per_target": accepted,
+						"connected_targets_of": fmt.Sprint(accepted), "oracle": map[string]any{"acknowledged": acked}, "impl": nil,
+						"gomaxprocs": md.procs, "parallel_callers": md.par, "round": r, "all_replied": got})
+				}
+			}
+		}
+		h.Stop()
+		if md.procs > 0 {
+			runtime.GOMAXPROCS(old)
+		}
+	}
+	zzvEmit("summary", map[string]any{"evaluations": evals, "rounds": roundsRun, "mismatches": mism, "classes": classes,
+		"no_reply": noReply, "level": "handler-concurrent"})
 }
